@@ -420,7 +420,27 @@ impl Drop for Target {
         unsafe {
             libc::kill(self.pid, libc::SIGKILL);
         }
-        let _ = self.child.wait();
+        // If a (broken) dumper left threads ptrace-attached to us, their zombies must be
+        // reaped by the tracer one by one before the group leader can be reaped.
+        let deadline = Instant::now() + Duration::from_millis(3000);
+        loop {
+            let mut st = 0;
+            if let Ok(rd) = std::fs::read_dir(format!("/proc/{}/task", self.pid)) {
+                for e in rd.filter_map(|e| e.ok()) {
+                    if let Some(tid) = e.file_name().to_str().and_then(|s| s.parse::<i32>().ok()) {
+                        if tid != self.pid {
+                            unsafe { libc::waitpid(tid, &mut st, libc::__WALL | libc::WNOHANG) };
+                        }
+                    }
+                }
+            }
+            let r = unsafe { libc::waitpid(self.pid, &mut st, libc::__WALL | libc::WNOHANG) };
+            if r == self.pid || r < 0 || Instant::now() > deadline {
+                break;
+            }
+            std::thread::sleep(Duration::from_micros(200));
+        }
+        let _ = self.child.try_wait();
         super::helpers::unregister_child(self.pid);
         if !self.shared.is_null() {
             unsafe {
